@@ -138,6 +138,9 @@ pub fn run(ctx: &Ctx) -> i32 {
                 // the palette written as several new-format chunks, each listing a part of the range
                 // (consecutive parts, any order; a part may be restated; later parts may open later frames)
                 cfg.max_frames = 3;
+                // (this family sits at i % 32 == 10, where the shared `i % 16 < 8` switch is always off:) half of the
+                // sprites carry tilesets, so that palette parts arrive after - and in later frames than - tileset chunks
+                cfg.tilemaps = (i / 32) % 2 == 0;
                 let (mut sp, _) = gen::gen_sprite(&mut rng, &cfg);
                 let base = match &sp.palette {
                     Some(p) if p.len() >= 2 => p.clone(),
@@ -223,6 +226,7 @@ pub fn run(ctx: &Ctx) -> i32 {
                 }
                 res.feature = gen::features(&sp) ^ 0x5b17 ^ chunks.len() as u64;
                 res.count("split_new_chunks", chunks.len() as u64);
+                res.count("split_sprites_with_tilesets", !sp.tilesets.is_empty() as u64);
                 // an indexed sprite needs its whole palette before validation only at the END of loading,
                 // so parts may also arrive in later frames
                 let later = sp.durations.len() > 1 && rng.chance(1, 2);
